@@ -26,6 +26,7 @@ class Replay:
         self.final_rewritable = None
         self.ref_stream = None
         self.nj = None
+        self.rejected = 0
 
     def bad(self, sig, msg):
         if len(self.problems) < 5:
@@ -97,9 +98,12 @@ def replay(files, main, o, budget, check_final=True, max_steps=400):
         if det:
             usable.append(m)
     nonlr = [e for e in o["app_errors"] if e[0] == NON_LR]
-    if len(nonlr) != len(ms) - len(usable):
-        rp.bad("non-lr-verdicts", "%d non-linear errors, reference rejects %d patterns" % (len(nonlr), len(ms) - len(usable)))
+    exp_pos = sorted((m["file"], m["line"]) for m in ms if not m["det"])
+    got_pos = sorted((e[2], e[3]) for e in nonlr)
+    if got_pos != exp_pos:
+        rp.bad("non-lr-verdicts", "non-linear errors reported at %s, the reference rejects the patterns defined at %s" % (got_pos, exp_pos))
         return rp
+    rp.rejected = len(exp_pos)
     cur = list(prog)
     events = o["events"]
     for k, ev in enumerate(events):
